@@ -166,11 +166,27 @@ func gen(t *rapid.T) Case {
 		id := hex.EncodeToString(idb)
 		ids[id] = true
 		addr, class := genAddr(t)
-		c.Peers = append(c.Peers, Peer{
+		p := Peer{
 			ID: id, Addr: addr, Class: class,
 			Port:     rapid.SampledFrom([]int{0, 1, 80, 6881, 16001, 32767, 65535, rapid.IntRange(0, 65535).Draw(t, "rport")}).Draw(t, "port"),
 			Complete: rapid.Bool().Draw(t, "complete"),
-		})
+		}
+		// An agent keeps its peer id across restarts: the same id may announce again from
+		// another port or another address (a peer is the triple id, address, port).
+		if i > 0 && rapid.IntRange(0, 4).Draw(t, "moved") == 0 {
+			prev := c.Peers[rapid.IntRange(0, i-1).Draw(t, "moved_from")]
+			p.ID = prev.ID
+			switch rapid.IntRange(0, 2).Draw(t, "moved_how") {
+			case 0: // new port, same address
+				p.Addr, p.Class = prev.Addr, prev.Class
+				if p.Port == prev.Port {
+					p.Port = (prev.Port + 1) % 65536
+				}
+			case 1: // new address, same port
+				p.Port = prev.Port
+			}
+		}
+		c.Peers = append(c.Peers, p)
 	}
 	chunks := rapid.SliceOfN(rapid.SliceOfN(rapid.Custom(func(t *rapid.T) Step {
 		k := rapid.SampledFrom([]int{0, 0, 0, 0, 1, 2}).Draw(t, "k")
@@ -227,18 +243,27 @@ func runOnce(c Case) (verdict pbt.Verdict, storeError bool) {
 	if c.WindowSec < 1 || c.WindowSec > 86400 || c.Windows < 2 || c.Windows > 50 || c.OffsetSec < 0 || c.OffsetSec >= c.WindowSec || len(c.Peers) == 0 || len(c.Peers) > 64 {
 		return pbt.Verdict{Discard: true}, false
 	}
+	// A peer is the triple (id, address, port); several peers may share an id.
+	type ident struct {
+		id   core.PeerID
+		addr string
+		port int
+	}
 	ids := make([]core.PeerID, len(c.Peers))
-	idx := map[core.PeerID]int{}
+	idx := map[ident]int{}
+	sharedID := map[core.PeerID]int{}
 	for i, p := range c.Peers {
 		id, err := core.NewPeerID(p.ID)
 		if err != nil || p.Port < 0 || p.Port > 65535 {
 			return pbt.Verdict{Discard: true}, false
 		}
-		if _, dup := idx[id]; dup {
+		k := ident{id, p.Addr, p.Port}
+		if _, dup := idx[k]; dup {
 			return pbt.Verdict{Discard: true}, false
 		}
 		ids[i] = id
-		idx[id] = i
+		idx[k] = i
+		sharedID[id]++
 	}
 	for _, s := range c.Steps {
 		if s.K < 0 || s.K > 2 || s.Peer < 0 || s.Peer >= len(c.Peers) || s.T < 0 || s.T >= numTorrents || s.N < 0 || s.Sec < 0 {
@@ -264,6 +289,10 @@ func runOnce(c Case) (verdict pbt.Verdict, storeError bool) {
 	model := make([]map[int]*rec, numTorrents)
 	for t := range model {
 		model[t] = map[int]*rec{}
+	}
+	latest := make([]map[core.PeerID]int, numTorrents) // per torrent: the peer that announced last under each id
+	for t := range latest {
+		latest[t] = map[core.PeerID]int{}
 	}
 	classes := map[string]bool{}
 	fullLookups, windowsCrossed := 0, 0
@@ -294,7 +323,7 @@ func runOnce(c Case) (verdict pbt.Verdict, storeError bool) {
 			if g == nil {
 				return fmt.Sprintf("GetPeers returned a nil peer (%s)", where)
 			}
-			i, ok := idx[g.PeerID]
+			i, ok := idx[ident{g.PeerID, g.IP, g.Port}]
 			if !ok {
 				unknown = append(unknown, fmt.Sprintf("%s@%s:%d", g.PeerID.String()[:6], g.IP, g.Port))
 				continue
@@ -312,7 +341,9 @@ func runOnce(c Case) (verdict pbt.Verdict, storeError bool) {
 			g := seen[i]
 			m := model[t][i]
 			if g == nil {
-				if m != nil && full {
+				// Of several peers that share an id, the one that announced last must be there;
+				// whether the earlier ones still are is not judged.
+				if m != nil && full && latest[t][ids[i]] == i {
 					return fmt.Sprintf("announced peer not returned: peer %d class=%s addr=%q port=%d complete=%v (%s)", i, c.Peers[i].Class, c.Peers[i].Addr, c.Peers[i].Port, m.complete, where)
 				}
 				continue
@@ -360,6 +391,10 @@ func runOnce(c Case) (verdict pbt.Verdict, storeError bool) {
 			}
 			m.complete = complete
 			m.flags[complete] = true
+			if prev, ok := latest[st.T][ids[st.Peer]]; ok && prev != st.Peer {
+				classes["same-id-announces-from-another-address-or-port"] = true
+			}
+			latest[st.T][ids[st.Peer]] = st.Peer
 		case 1:
 			d := time.Duration(st.Sec) * time.Second
 			if d > budget {
@@ -414,7 +449,7 @@ func runOnce(c Case) (verdict pbt.Verdict, storeError bool) {
 func TestProp(t *testing.T) {
 	pbt.Main(t, pbt.Spec{
 		ID: "C28",
-		Rule: "1-6 peers with drawn 20-byte ids, addresses from {IPv4, host name, IPv6 canonical/compressed, full 8-group, with zone, IPv4-mapped, short forms}, ports 0-65535 and completion flag announce 1-2 torrents through the real RedisStore on an in-process miniredis (window 10s|30s|1h x 2|3|5 windows, start at a drawn offset inside a window); steps: announce (flags only go false->true), advance the shared clock (total kept below (windows-1)*window so every announcement is still retained), lookup; every lookup must return <= n distinct announced peers with the announced address and port, and a lookup asking for more than three times the number of peers (large enough that every retained window is read completely) must return exactly the announced set with the latest flags. " +
+		Rule: "1-6 peers with drawn 20-byte ids (one in five shares its id with an earlier peer and differs in port and/or address: an agent that came back elsewhere), addresses from {IPv4, host name, IPv6 canonical/compressed, full 8-group, with zone, IPv4-mapped, short forms}, ports 0-65535 and completion flag announce 1-2 torrents through the real RedisStore on an in-process miniredis (window 10s|30s|1h x 2|3|5 windows, start at a drawn offset inside a window); steps: announce (flags only go false->true), advance the shared clock (total kept below (windows-1)*window so every announcement is still retained), lookup; every lookup must return <= n distinct announced peers with the announced address and port, and a lookup asking for more than three times the number of peers (large enough that every retained window is read completely) must return exactly the announced set with the latest flags (of several peers sharing an id, the one that announced last must be present; the earlier ones may be). " +
 			"non-trivial = at least one announced peer and one full lookup; distinct by case hash",
 		Assumptions: []string{
 			"miniredis v2.5.0 stands in for Redis (SADD, EXPIREAT, SRANDMEMBER); its clock is set and fast-forwarded together with the harness clock",
